@@ -409,6 +409,26 @@ impl VectorizedHashTable {
         })
     }
 
+    /// Direct-address mode indexes `heads` by KEY VALUE, so it can only be probed with Int64
+    /// values: widen a narrower integer probe key column (an INTEGER column joined to a BIGINT
+    /// build key) first. Without this the probes fell through to the hashed walk, which indexes
+    /// the direct-address `heads` with a hash bucket: out-of-bounds panic or missed matches.
+    fn direct_probe_keys(&self, probe_key_arrays: &[ArrayRef]) -> Option<ArrayRef> {
+        use arrow::datatypes::DataType;
+        self.direct?;
+        let a = probe_key_arrays.first()?;
+        match a.data_type() {
+            DataType::Int64 => Some(a.clone()),
+            DataType::Int8
+            | DataType::Int16
+            | DataType::Int32
+            | DataType::UInt8
+            | DataType::UInt16
+            | DataType::UInt32 => arrow::compute::cast(a, &DataType::Int64).ok(),
+            _ => None,
+        }
+    }
+
     /// Probe the hash table with a batch of probe keys.
     /// Returns matched (build_batch_idx, build_row_idx, probe_row_idx) triples.
     #[inline]
@@ -425,7 +445,11 @@ impl VectorizedHashTable {
         mut emit: impl FnMut(u32, u32, u32),
     ) -> bool {
         if let Some((kmin, kmax)) = self.direct {
-            if let Some(pa) = probe_key_arrays[0].as_any().downcast_ref::<Int64Array>() {
+            let widened = self.direct_probe_keys(probe_key_arrays);
+            if let Some(pa) = widened
+                .as_ref()
+                .and_then(|a| a.as_any().downcast_ref::<Int64Array>())
+            {
                 let vals = pa.values();
                 let nulls = pa.nulls();
                 for probe_row in 0..num_rows {
@@ -445,8 +469,10 @@ impl VectorizedHashTable {
                         entry = self.next[entry as usize];
                     }
                 }
-                return true;
             }
+            // direct-address `heads` must never be walked by hash bucket: a probe key of any
+            // other type cannot equal a BIGINT build key
+            return true;
         }
         if let Some(build_bufs) = &self.i64_key_bufs {
             let probe_bufs: Option<Vec<&Int64Array>> = probe_key_arrays
@@ -488,7 +514,11 @@ impl VectorizedHashTable {
         // Direct-address probe: bounds check + slot load; chain entries are
         // exactly equal keys, so no hashing and no comparisons.
         if let Some((kmin, kmax)) = self.direct {
-            if let Some(pa) = probe_key_arrays[0].as_any().downcast_ref::<Int64Array>() {
+            let widened = self.direct_probe_keys(probe_key_arrays);
+            if let Some(pa) = widened
+                .as_ref()
+                .and_then(|a| a.as_any().downcast_ref::<Int64Array>())
+            {
                 let vals = pa.values();
                 let nulls = pa.nulls();
                 for probe_row in 0..num_rows {
@@ -508,8 +538,9 @@ impl VectorizedHashTable {
                         entry = self.next[entry as usize];
                     }
                 }
-                return matches;
             }
+            // never walk the direct-address `heads` by hash bucket (see direct_probe_keys)
+            return matches;
         }
 
         let hashes = vectorized_hash::hash_arrays(probe_key_arrays, num_rows);
@@ -629,7 +660,11 @@ impl VectorizedHashTable {
 
         // Direct-address: membership = slot occupancy, no hash/compare.
         if let Some((kmin, kmax)) = self.direct {
-            if let Some(pa) = probe_key_arrays[0].as_any().downcast_ref::<Int64Array>() {
+            let widened = self.direct_probe_keys(probe_key_arrays);
+            if let Some(pa) = widened
+                .as_ref()
+                .and_then(|a| a.as_any().downcast_ref::<Int64Array>())
+            {
                 let vals = pa.values();
                 let nulls = pa.nulls();
                 for probe_row in 0..num_rows {
@@ -643,8 +678,9 @@ impl VectorizedHashTable {
                         matched[probe_row] = self.heads[(k - kmin) as usize] != u32::MAX;
                     }
                 }
-                return matched;
             }
+            // never walk the direct-address `heads` by hash bucket (see direct_probe_keys)
+            return matched;
         }
 
         let hashes = vectorized_hash::hash_arrays(probe_key_arrays, num_rows);
